@@ -78,7 +78,10 @@ def verdict(desc):
     # (1) reference with explicit images
     imgs = [[(reflect(m, alpha, h), -1.0)] for m in meshes]
     ref = ref_vlm.solve(meshes, [True] * ns, alpha, 0.0, desc["v"], desc["rho"], images=imgs)
-    out.close("ref/circulations", Gg, ref["G"], rtol=1e-9)
+    # (circulations of a non-lifting case are round-off of O(v c) terms: never judged finer than 1e-9 of 1e-6 v c)
+    cref_ = max(float(np.max(m[-1, :, 0] - m[0, :, 0])) for m in meshes)
+    gscale = max(float(np.max(np.abs(ref["G"]))), 1e-6 * desc["v"] * cref_)
+    out.close("ref/circulations", Gg, ref["G"], rtol=1e-9, scale=gscale)
     for k in range(ns):
         out.close("ref/sec_forces", Fg[k], ref["F"][k], rtol=1e-9, scale=fscale)
 
@@ -89,7 +92,7 @@ def verdict(desc):
     pe.run_model()
     Ge = pe.get_val(P + "circulations")
     n = Gg.size
-    out.close("images/circulations_real", Ge[:n], Gg, rtol=1e-9)
+    out.close("images/circulations_real", Ge[:n], Gg, rtol=1e-9, scale=gscale)
     # the image lattice lives at coordinates ~2h: its panel geometry carries a round-off of eps*2h/panel size
     dmin = min(float(np.min(np.diff(m[:, :, 0], axis=0))) for m in meshes)
     dmin = min(dmin, min(float(np.min(np.diff(m[:, :, 1], axis=1))) for m in meshes))
